@@ -1447,6 +1447,58 @@ theorem mergeNames_idem (names : List (Stype × List String)) : mergeNames (merg
     exact mergeNamesStep_drops_key _ .image_embedded (by decide)
   rw [mergeNames_eq (mergeNames names), mergeNamesStep_noop_absent _ _ h1, mergeNamesStep_noop_absent _ _ h2]
 
+/-! ### frame-level facts for `materialize` -/
+
+theorem materialize_eq (vc : String → List Key → List Key) (t : Option String)
+    (emb : String → String → List (Val F)) (df : DF L F) :
+    materialize vc t emb df = ((fitConv vc t emb df).call df).map fun r =>
+      { tf := r.1, stats := updateEmbDim r.1 (fitStats vc t df), conv := r.2 } := by
+  simp only [materialize, materializeWith, fitConv]
+  cases (Conv.init df.colToStype t (fitStats vc t df) emb).call df <;> rfl
+
+theorem find_col (df : DF L F) (c : Col F) (hc : c ∈ df.cols) (hnd : (df.cols.map (·.name)).Nodup) :
+    df.col? c.name = some c := by
+  unfold DF.col?
+  generalize df.cols = cols at hc hnd
+  induction cols with
+  | nil => simp at hc
+  | cons x xs ih =>
+    simp only [List.map_cons, List.nodup_cons] at hnd
+    rcases List.mem_cons.mp hc with e | h
+    · subst e; simp [List.find?_cons]
+    · have hne : x.name ≠ c.name := by
+        intro e
+        exact hnd.1 (e ▸ List.mem_map.mpr ⟨c, h, rfl⟩)
+      have hb : (x.name == c.name) = false := by simpa using hne
+      simp only [List.find?_cons, hb]
+      exact ih h hnd.2
+
+theorem colToStype_names (df : DF L F) : df.colToStype.map (·.1) = df.cols.map (·.name) := by
+  simp [DF.colToStype, List.map_map, Function.comp]
+
+theorem stypeOf_col (cv : Conv F) (df : DF L F) (h : cv.colToStype = df.colToStype) (c : Col F) (hc : c ∈ df.cols)
+    (hnd : (df.cols.map (·.name)).Nodup) : cv.stypeOf c.name = c.stype := by
+  have hm : (c.name, c.stype) ∈ df.colToStype := List.mem_map.mpr ⟨c, hc, rfl⟩
+  have := dictGet_of_mem_nodup df.colToStype c.name c.stype hm (by rw [colToStype_names]; exact hnd)
+  simp [Conv.stypeOf, h, this]
+
+theorem specCol_col (cv : Conv F) (df : DF L F) (h : cv.colToStype = df.colToStype) (c : Col F) (hc : c ∈ df.cols)
+    (hnd : (df.cols.map (·.name)).Nodup) :
+    specCol cv df c.name = c.cells.map (encodeCell (cv.cfg c.name) c.stype) := by
+  simp only [specCol, find_col df c hc hnd, stypeOf_col cv df h c hc hnd]
+
+/-- every non-target column is listed in the canonical name table -/
+theorem listed (cv : Conv F) (df : DF L F) (h : cv.colToStype = df.colToStype)
+    (hn : cv.names = colNamesDict cv.colToStype cv.target) (c : Col F) (hc : c ∈ df.cols)
+    (ht : some c.name ≠ cv.target) : ∃ g ∈ cv.names, c.name ∈ g.2 := by
+  have hm : (c.name, c.stype) ∈ cv.colToStype := by rw [h]; exact List.mem_map.mpr ⟨c, hc, rfl⟩
+  have hg : c.name ∈ groupOf cv.colToStype cv.target c.stype := (mem_groupOf _ _ _ _).mpr ⟨hm, ht⟩
+  have hne : groupOf cv.colToStype cv.target c.stype ≠ [] := List.ne_nil_of_mem hg
+  have := dictGet_colNamesDict cv.colToStype cv.target c.stype
+  simp only [optL, hne, if_false, Option.map_some] at this
+  rw [hn]
+  exact ⟨_, mem_of_dictGet _ _ _ this, (mem_sortNames _ _).mpr hg⟩
+
 end Mat
 
 end TFVerif
